@@ -24,12 +24,18 @@ pub struct Made {
 /// Compress a drawn source with a drawn configuration through a drawn writer. On a writer
 /// outcome other than Success the violation is recorded and None returned.
 pub fn make_archive(ctx: &mut Ctx, max_len: usize, big: bool, force_writer: Option<u32>) -> Option<Made> {
+    make_archive_with(ctx, max_len, big, force_writer, |_| {})
+}
+
+/// like `make_archive`, with a hook to constrain the drawn options
+pub fn make_archive_with(ctx: &mut Ctx, max_len: usize, big: bool, force_writer: Option<u32>, tweak: impl FnOnce(&mut scen::CompressSpec)) -> Option<Made> {
     let writer = force_writer.unwrap_or_else(|| simkit::with(|s| s.tape.weighted(&[3, 2, 3]) as u32));
     let cli = writer != 2;
     let mut spec = scen::gen_compress_spec(cli, big);
     if cli {
         spec.metadata = scen::cli_safe_metadata(&spec.metadata);
     }
+    tweak(&mut spec);
     let max_len = if spec.comp.expensive() { max_len.min(spec.cfg.expected_avg().saturating_mul(24).max(64)) } else { max_len };
     let (sspec, data) = gen::gen_source(&spec.cfg, max_len);
     let source = Arc::new(data);
